@@ -649,8 +649,9 @@ func dcsEntry(r rune, p *Parser) stateFn {
 		p.hook(r)
 		return dcsPassthrough
 	default:
-		p.hook(r)
-		return dcsPassthrough
+		// Return to ground on unexpected characters
+		p.emit(fmt.Errorf("unexpected characted: %c", r))
+		return ground
 	}
 }
 
